@@ -19,7 +19,7 @@ func init() { core.Register(c09{}) }
 func (c09) ID() string    { return "C09" }
 func (c09) Level() string { return "fault_enumeration" }
 func (c09) Rule() string {
-	return "per seeded scenario (satisfiable graph with cycles, lazy components, config-bound fields, optional unsatisfiable component and config points, 1-2 logging user post-processors, runners, 1-2 loaders, a harness scanner and a harness factory post-processor): the fault-free baseline must start, leave every optional unsatisfiable field at its zero value and run every runner; then EVERY single fault site of the scenario is injected, one start each: each required component point (retargeted to an absent name / impossible qualifier), each required value/prefix (key removed), each Init, each AfterPropertiesSet, each callback kind {before-instantiation, after-instantiation, properties, early-reference, before-init, after-init} of each user post-processor x component, the factory post-processor, the scanner x component, each loader (error / invalid YAML), each runner; plus seeded pairs. Oracle per faulted start: reached fault (model: the component is certainly created; for early-reference callbacks: the callback was observed) => App.Run returns an error, no panic, no divergence (step budgets), and no runner event for faults before the runner phase (runner faults: exactly the runners sorted before it ran); unreached fault (component certainly not created) => the start succeeds. distinct_nontrivial = distinct (site kind, component palette type, depth of the component in the creation stack when the fault fired)"
+	return "per seeded scenario (satisfiable graph with cycles, lazy components, config-bound fields, optional unsatisfiable component and config points, 1-2 logging user post-processors, runners, 1-2 loaders, a harness scanner and a harness factory post-processor): the fault-free baseline must start, leave every optional unsatisfiable field at its zero value and run every runner; then EVERY single fault site of the scenario is injected, one start each: each required component point (retargeted to an absent name / impossible qualifier), each required value/prefix (key removed), each Init, each AfterPropertiesSet, each callback kind {before-instantiation, after-instantiation, properties, early-reference, before-init, after-init} of each user post-processor x component, the factory post-processor, the scanner x component (and the scanner failing for two / for all components in one pass), each loader (error / invalid YAML), each runner; plus seeded pairs. Oracle per faulted start: reached fault (model: the component is certainly created; for early-reference callbacks: the callback was observed) => App.Run returns an error, no panic, no divergence (step budgets), and no runner event for faults before the runner phase (runner faults: exactly the runners sorted before it ran); unreached fault (component certainly not created) => the start succeeds. distinct_nontrivial = distinct (site kind, component palette type, depth of the component in the creation stack when the fault fired)"
 }
 func (c09) Assumptions() []string {
 	return []string{
@@ -207,6 +207,11 @@ func (w *c09World) sites() []fault {
 		out = append(out, fault{Kind: "scanner", Node: i})
 	}
 	out = append(out, fault{Kind: "factorypp"})
+	// the scanner failing for several components in the same pass (its goroutines overlap)
+	out = append(out, fault{Kind: "scanner-all"})
+	if len(w.sc.Nodes) >= 2 {
+		out = append(out, fault{Kind: "scanner-two", Node: 0, PP: 1})
+	}
 	for l := 0; l < w.nld; l++ {
 		out = append(out, fault{Kind: "loader-err", PP: l}, fault{Kind: "loader-yaml", PP: l})
 	}
@@ -250,6 +255,11 @@ func (w *c09World) start(faults []fault) (*world.Run, world.Expect) {
 			world.PPCoreOf(pps[f.PP]).FailOn[f.CB+":"+sc.Nodes[f.Node].DisplayName()] = true
 		case "scanner":
 			scanner.FailFor[sc.Nodes[f.Node].DisplayName()] = true
+		case "scanner-all":
+			scanner.FailFor["*"] = true
+		case "scanner-two":
+			scanner.FailFor[sc.Nodes[f.Node].DisplayName()] = true
+			scanner.FailFor[sc.Nodes[f.PP].DisplayName()] = true
 		case "factorypp":
 			fpp.Fail = true
 		case "loader-err", "loader-yaml":
@@ -294,7 +304,7 @@ func (p c09) inject(c *core.Ctx, w *c09World, faults []fault, bexp world.Expect,
 	for _, f := range faults {
 		reached, unreached := false, false
 		switch f.Kind {
-		case "factorypp", "loader-err", "loader-yaml", "scanner":
+		case "factorypp", "loader-err", "loader-yaml", "scanner", "scanner-all", "scanner-two":
 			reached = true
 		case "runner":
 			reached = true
@@ -351,7 +361,7 @@ func (p c09) inject(c *core.Ctx, w *c09World, faults []fault, bexp world.Expect,
 				continue
 			}
 			switch f.Kind {
-			case "factorypp", "loader-err", "loader-yaml", "scanner":
+			case "factorypp", "loader-err", "loader-yaml", "scanner", "scanner-all", "scanner-two":
 				reachedNonRunner = true
 			default:
 				if f.Kind == "pp" && f.CB == "early" {
@@ -391,7 +401,7 @@ func (p c09) inject(c *core.Ctx, w *c09World, faults []fault, bexp world.Expect,
 		for _, f := range faults {
 			depth := 0
 			ty := -1
-			if f.Kind != "factorypp" && !strings.HasPrefix(f.Kind, "loader") {
+			if f.Kind != "factorypp" && f.Kind != "scanner-all" && !strings.HasPrefix(f.Kind, "loader") {
 				ty = sc.Nodes[f.Node].Type
 				depth = creationDepthAtFailure(r)
 			}
